@@ -1060,5 +1060,18 @@ def expand_helpers(repo) -> dict:
             g = getattr(n, "_inl", None) if isinstance(n, ast.Call) else None
             if g is not None:
                 left.add(g.key)
+    # … or that are mentioned otherwise than as the callee of a call (handed on as a callback, stored in a table): those
+    # stay functions in their own right as well
+    helper_names: dict[str, list] = {}
+    for keys in inl.into.values():
+        for k in keys:
+            helper_names.setdefault(k.rsplit(".", 1)[-1].rsplit(":", 1)[-1], []).append(k)
+    if helper_names:
+        for m in repo.pkg_modules():
+            callees = {id(n.func) for n in ast.walk(m.tree) if isinstance(n, ast.Call)}
+            for n in ast.walk(m.tree):
+                nm = n.id if isinstance(n, ast.Name) else (n.attr if isinstance(n, ast.Attribute) else None)
+                if nm in helper_names and id(n) not in callees and isinstance(getattr(n, "ctx", None), ast.Load):
+                    left.update(helper_names[nm])
     stats["still_called"] = sorted(left)
     return stats
